@@ -90,6 +90,15 @@ def _mk(role, exch, k, sched=None, net=None, t=None, dribble=False, size=300, ca
     return sc
 
 
+def _flood_after_abort(t, gap, sched=None):
+    ae = {"acse": t, "dimse": 4 * t, "network": 8 * t, "connection": t, "echo_act": "abort"}
+    n = int(5 * t / gap)
+    peer = [{"do": "send", "pdu": "rq"}, {"do": "expect", "types": [2, 3, 7], "t": 0.3}, {"do": "send", "pdu": "echo_rq"},
+            {"do": "flood", "pdu": "echo_rq", "n": n, "gap": gap}, {"do": "drain", "t": 2 * t}, {"do": "close"}]
+    return {"role": "acceptor", "exch": "flood", "budget": None, "ae": ae, "peer": peer, "user": [], "flood_after_abort": True,
+            "sched": sched or {"switch_pct": 30}, "net": {"seg": "whole", "recv_cost": 0.001}}
+
+
 def directed(tier):
     out = []
     for role in ("acceptor", "requestor"):
@@ -104,6 +113,11 @@ def directed(tier):
                 ks = [k for k in ks if 0 <= k <= total]
             for k in ks:
                 out.append(_mk(role, exch, k))
+    # the acceptor's handler aborts the association; the peer ignores the A-ABORT and keeps the provider's receive
+    # path busy for five ARTIM periods (each recv() costs the provider 1 ms): only the ARTIM timer gets it out of Sta13
+    for t in (0.05, 0.1):
+        for gap in (0.0003, 0.0008):
+            out.append(_flood_after_abort(t, gap))
     # peer accepts the association and then neither reads nor writes: a C-STORE larger than the connection's
     # buffering blocks in send()
     ac_len = boundaries("requestor", "store")[0]
@@ -124,6 +138,8 @@ def gen(rng, idx, tier):
     exch = rng.choice(EXCH)
     total = stream_len(role, exch)
     k = rng.randrange(0, total + 1)
+    if rng.randrange(12) == 0:
+        return _flood_after_abort(rng.choice([0.05, 0.1]), rng.choice([0.0002, 0.0005, 0.0009]), sched=C.gen_sched(rng))
     size, cap = 300, None
     if rng.randrange(4) == 0:
         size, cap = rng.choice([3000, 20000, 70000]), rng.choice([256, 1024, 4096, 16384])
@@ -148,6 +164,8 @@ def execute(sc, ctx):
 
 def _phase(sc):
     """Which part of the exchange byte offset k falls into."""
+    if sc.get("flood_after_abort"):
+        return "flood-after-abort"
     k = sc["budget"]
     bs = boundaries(sc["role"], sc["exch"])
     names = [st["pdu"] for st in sc["peer"] if st["do"] == "send"]
@@ -166,7 +184,7 @@ def check(sc, r):
     if r.failure:
         roles = sorted(set((t.get("role") or "?").split(":")[0] for t in (r.failure_info or []))) if r.failure == "stuck" else []
         out.append(C.v("bounded-liveness", "C08/run-%s/%s/%s" % (r.failure, sc["role"], "+".join(roles)),
-                       "run ended %s (stall in %s at byte %d): %s" % (r.failure, ph, sc["budget"], r.failure_info)))
+                       "run ended %s (stall in %s at byte %s): %s" % (r.failure, ph, sc["budget"], r.failure_info)))
         return out
     ae = sc["ae"]
     bound = 2 * (ae["acse"] + ae["dimse"] + ae["network"] + (ae.get("connection") or 0)) + 0.5
@@ -178,7 +196,17 @@ def check(sc, r):
         if role.startswith(("assoc:", "dul:", "user", "main")) or role == "main":
             if t["exit_t"] is not None and t["exit_t"] - t_last > bound and not role.startswith("main"):
                 out.append(C.v("bounded-liveness", "C08/late-exit/%s/%s" % (sc["role"], role.split(":")[0]),
-                               "%s finished %.3f s after the peer's last byte (bound %.3f; stall in %s at byte %d)" % (role, t["exit_t"] - t_last, bound, ph, sc["budget"])))
+                               "%s finished %.3f s after the peer's last byte (bound %.3f; stall in %s at byte %s)" % (role, t["exit_t"] - t_last, bound, ph, sc["budget"])))
+    if sc.get("flood_after_abort"):
+        # once the local side has aborted (AA-1: A-ABORT sent, ARTIM started, Sta13) only ARTIM bounds the wait
+        ab = [h["t"] for h in r.evts(lab, "EVT_ABORTED")]
+        if ab:
+            lim = ab[0] + ae["acse"] * 1.25 + 0.05
+            for t in r.tasks:
+                role = t["role"] or ""
+                if role.startswith(("assoc:", "dul:")) and t["exit_t"] is not None and t["exit_t"] > lim:
+                    out.append(C.v("bounded-liveness", "C08/late-exit-after-abort/%s" % role.split(":")[0],
+                                   "%s finished %.3f s after the local abort although the ARTIM timeout is %.3f s (the peer kept sending)" % (role, t["exit_t"] - ab[0], ae["acse"])))
     ud = r.obs.get("user_done_t")
     if ud is not None and ud - t_last > bound:
         out.append(C.v("bounded-liveness", "C08/late-return/%s" % sc["role"], "user calls returned %.3f s after the peer's last byte (bound %.3f)" % (ud - t_last, bound)))
@@ -194,6 +222,8 @@ def check(sc, r):
 
 
 def nontrivial(sc, r):
+    if sc.get("flood_after_abort"):
+        return ("flood", r.digest) if r.evts(R.real_label(sc), "EVT_ABORTED") else None
     total = stream_len(sc["role"], sc["exch"])
     if 0 < sc["budget"] < total and any(h["kind"] == "peer_stall" for h in r.hist):
         return (sc["role"], sc["exch"], sc["budget"], r.digest)
@@ -202,6 +232,8 @@ def nontrivial(sc, r):
 
 def probes(sc, r):
     return {"phase_%s_%s" % (sc["role"], _phase(sc)): True, "stalled": any(h["kind"] == "peer_stall" for h in r.hist),
+            "flood_after_abort_artim_expired": bool(sc.get("flood_after_abort")) and any(
+                h["fsm_event"] == "Evt18" and h["state"] == "Sta13" for h in r.evts(R.real_label(sc), "EVT_FSM_TRANSITION")),
             "send_blocked_by_flow_control": r.counters.get("net.send_blocked", 0) > 0,
             "send_timed_out": r.counters.get("net.send_timeout", 0) > 0}
 
